@@ -124,8 +124,54 @@ Contract(
     ensures=_c["ensures"],
     loops={
         0: LoopSpec("while True", _c["inv_outer"]),
-        1: LoopSpec("[s.add_assertion(k) for k in knowledge]", _c["inv_add"]),
+        1: LoopSpec("[... for k in knowledge]", _c["inv_add"]),
         2: LoopSpec("for c in conditionals", _c["inv_inner"]),
     },
     properties=["C06", "C01", "C02", "C07", "C16"],
+)
+
+
+# ---------------------------------------------------------------------------
+# consistency_indices: the same algorithm over integer keys
+# ---------------------------------------------------------------------------
+def _mem(keys, k):
+    return z3.Function("mem_Int", LInt.sort, L.Int, L.Bool)(keys, k)
+
+
+def _all_in(lst, keys, name):
+    i = z3.Int("_ai_" + name)
+    return Forall(
+        [i],
+        [LInt.at(lst, i)],
+        z3.Implies(z3.And(0 <= i, i < LInt.len(lst)), _mem(keys, LInt.at(lst, i))),
+        "allin." + name,
+    )
+
+
+_k = _consistency_contract("consistency_indices", PSK, lambda d: d.keys, TInt, LInt, LLInt)
+
+
+def _inv_outer_k(s, j, pre):
+    d = s.field(s.ckb, "conditionals")
+    return _k["inv_outer"](s, j, pre) + [_all_in(s.conditionals.t, d.keys, "conds")]
+
+
+def _inv_inner_k(s, j, pre):
+    d = s.field(s.ckb, "conditionals")
+    return _k["inv_inner"](s, j, pre) + [_all_in(s.C.t, d.keys, "C")]
+
+
+Contract(
+    "inference.consistency_sat:consistency_indices",
+    params={"ckb": BeliefBaseT, "solver": TStr, "weakly": TBool},
+    defaults={"weakly": lambda ex: VBool(False)},
+    returns=TTuple([TFalseOr(TList(TList(TInt))), TOpaque]),
+    locals={"partition": TList(TList(TInt)), "R": TList(TInt), "C": TList(TInt)},
+    ensures=_k["ensures"],
+    loops={
+        0: LoopSpec("while True", _inv_outer_k),
+        1: LoopSpec("[... for k in knowledge]", _k["inv_add"]),
+        2: LoopSpec("for i in conditionals", _inv_inner_k),
+    },
+    properties=["C06", "C03", "C04", "C07"],
 )
